@@ -418,3 +418,7 @@ V('sc5-dropped-token', ['C03', 'C19'], S,
   "            # next line not empty: progress further\n            self.pos = next_non_space\n",
   "            # next line not empty: progress further\n            self.pos = next_non_space\n            if latex.startswith('%', self.pos):\n                self.scan_comment(latex, self.pos)\n", 'SC5')
 V('wl1-ext-cond', ['C18'], SH, "        if not f.endswith('.tex'):\n            f += '.tex'", "        if not os.path.splitext(f)[1]:\n            f += '.tex'", 'WL1')
+
+V('ls1w-bom', ['C01'], T2, "        ft.write(text_get_txt(text))", "        ft.write(text_get_txt(text).replace('\\ufeff', ''))", 'LS1w')
+V('ls1w-skip-zero', ['C01'], T2, "        for n in text_get_num(text):\n            s = str(abs(n))",
+  "        for n in text_get_num(text):\n            if not n:\n                continue\n            s = str(abs(n))", 'LS1w')
